@@ -1452,6 +1452,29 @@ def state_scan(ctx, cnames):
                     ctx.undecided('C18.memo', 'stateless components keep no state between calls (%s)' % m.qn, m.site(n),
                                   'self.%s is kept between calls, but %s' % (fld, rv_))
                     continue
+                from ..lib import validated_against_question
+                chk_ = None
+                for g_ in c.methods.values():
+                    if g_.name == '__init__':
+                        continue
+                    try:
+                        if validated_against_question(M, g_, {fld}, depth=0):
+                            chk_ = '%s compares what self.%s holds with its own argument before using it' % (g_.qn, fld)
+                            break
+                    except Exception:
+                        pass
+                    for q_ in ast.walk(g_.node):
+                        if isinstance(q_, ast.Compare) and len(q_.ops) == 1 and isinstance(q_.ops[0], (ast.Eq, ast.NotEq)):
+                            sd_ = [q_.left, q_.comparators[0]]
+                            if any(isinstance(x_, ast.Attribute) and x_.attr == fld and isinstance(x_.value, ast.Name) and x_.value.id == 'self' for x_ in sd_) and \
+                                    any(isinstance(x_, ast.Attribute) and x_.attr != fld and isinstance(x_.value, ast.Name) and x_.value.id == 'self' for x_ in sd_):
+                                chk_ = '%s compares the snapshot self.%s with the field it was taken from (`%s`) and rebuilds on a difference' % (g_.qn, fld, ast.unparse(q_)[:50])
+                    if chk_:
+                        break
+                if chk_:
+                    ctx.undecided('C18.memo', 'stateless components keep no state between calls (%s)' % m.qn, m.site(n),
+                                  'self.%s is kept between calls, but %s: whether that check is sufficient is not decided here' % (fld, chk_))
+                    continue
                 ctx.violation('C18.memo', 'stateless components keep no state between calls (%s)' % m.qn, m.site(n),
                               'self.%s is %s outside the constructor and read back: results depend on the history of earlier queries' % (fld, how),
                               key='C18.memo|state|%s|%s' % (m.qn, fld))
